@@ -1,6 +1,8 @@
 import RV.C17.LemmasSound
 import RV.C17.LemmasFresh
 import RV.C17.LemmasTrieHist
+import RV.C17.LemmasFail
+import RV.C17.LemmasSplit
 /-
   C17 — property theorems (statements first, as `def … : Prop`, then the proofs).
 
@@ -111,6 +113,40 @@ def Statement_document_names_expand : Prop :=
     (serDoc fb qs (St.init.run ops).store ((St.init.run ops).mgr i) Doc.empty []).2.2 = .ok (d, names) →
       ∀ u dp l, (u, dp, l) ∈ names → ∃ n, alookup d.table dp = some n ∧ n ++ l = u
 
+/-- No operation, in any state — hence after every history — answers `Loop`: the fuel the model
+    gives to the three `while` loops always suffices.  Fuel as a function of the sizes: the `ns<k>` loop
+    of `compute_qname` and the `<prefix><k>` loop of `bind` stop within `len(bindings) + 1` rounds, the
+    `p…` renaming loop of the Turtle serializer within `len(document prefix table) + 1` rounds. -/
+def Statement_no_loop : Prop :=
+  (∀ (s : St) (op : Op), (s.step op).2 ≠ .err .Loop) ∧
+  (∀ (ops : List Op) (op : Op), ((St.init.run ops).step op).2 ≠ .err .Loop) ∧
+  (∀ st : Store, ∃ p, pickNs st (st.ns.length + 1) 1 = some p) ∧
+  (∀ (st : Store) (base n : Str), (pickNumbered st base n (st.ns.length + 1) 1).isLoop = false) ∧
+  (∀ (table : List (Str × Str)) (p : Str), ∃ q, freshP table (table.length + 1) p = some q)
+
+/-- Exactly when `split_uri` succeeds, and with what (`SplitCases`, LemmasSplit.lean), for both
+    start-category lists the code uses and every IRI outside the XML namespace: (1) only name
+    characters → ValueError; (2) last non-name character, then name characters that cannot start a
+    name, then a start character `c`, then name characters `r` to the end → `(…, c :: r)`, the
+    longest all-name suffix that begins with a start character (for the strict list an NCName);
+    (3) no start character after the last non-name character → the wrap-around of the inner loop:
+    split before the first start character of the whole IRI, ValueError if that is position 0 or
+    there is none.  The three cases are exhaustive. -/
+def Statement_split_uri_complete : Prop :=
+  StartsOK splitStartCats ∧ StartsOK nameStartCats ∧
+  (∀ (starts : List Nat), StartsOK starts → ∀ uri : Str, xmlns.isPrefixOf uri = false → SplitCases starts uri) ∧
+  (∀ (c : Nat) (r : Str), startChar nameStartCats c = true → restNc r = true → isNcname (c :: r) = true)
+
+/-- After every history, `qname(u)` (likewise every `compute_qname(u, generate=True)`) fails only
+    with ValueError and only if `u` has a forbidden character or `split_uri(u)` raises and `u` is not
+    itself a namespace bound to a non-empty prefix. -/
+def Statement_qname_fails_only_unsplittable : Prop :=
+  ∀ (ops : List Op) (i : Bool) (u : Str) (e : Err),
+    ((St.init.run ops).step (.qname i u)).2 = .err e →
+      e = .ValueError ∧ (validUri u = false ∨
+        (splitUri splitStartCats u = none ∧
+          ((St.init.run ops).store.prefix u = none ∨ (St.init.run ops).store.prefix u = some [])))
+
 /-! ### Proofs -/
 
 theorem bind_bijective : Statement_bind_bijective :=
@@ -140,6 +176,17 @@ theorem document_names_expand : Statement_document_names_expand := by
   have hi := HInv.run ops HInv.init
   exact (serDoc_all fb qs _ _ Doc.empty [] (hi.mgr i).1 (hi.mgr i).2
     (by intro u dp l hm; exact absurd hm (by simp))).2 d names h
+
+theorem no_loop : Statement_no_loop :=
+  ⟨St.step_noloop, fun _ op => St.step_noloop _ op, pickNs_terminates, pickNumbered_terminates,
+    freshP_terminates⟩
+
+theorem split_uri_complete : Statement_split_uri_complete :=
+  ⟨startsOK_split, startsOK_strict, fun _ hs uri hx => splitUri_complete hs uri hx,
+    fun _ _ hc hr => isNcname_of_strict hc hr⟩
+
+theorem qname_fails_only_unsplittable : Statement_qname_fails_only_unsplittable :=
+  fun ops i u e h => step_qname_error (HInv.run ops HInv.init) i u e h
 
 theorem longest_is_longest : Statement_longest_is_longest := getLongest_build
 
@@ -195,6 +242,15 @@ example : ((St.init.run exCollide).step (.serdoc false true [(nsE ++ [115], fals
     .doc [(sPv, nsE), (112 :: sPv, nsEa)] := by decide
 example : ((St.init.run exCollide).step (.serdoc false false [(iriX, true), (nsE ++ [115], false)])).2 =
     .doc [(sPv, nsEa), (112 :: sPv, nsE)] := by decide
+
+/-- `split_uri` on the three shapes: a hyphen before the name is left in the namespace; "abc" raises;
+    slash-ab-slash-hyphen wraps round and splits after the first slash; an IRI ending in slash-hyphen
+    raises (its first character is a start character) -/
+example : splitUri splitStartCats (nsEa ++ [45, 100]) = some (nsEa ++ [45], [100]) := by decide
+example : splitUri splitStartCats [97, 98, 99] = none := by decide
+example : splitUri splitStartCats [47, 97, 98, 47, 45] = some ([47], [97, 98, 47, 45]) := by decide
+example : splitUri splitStartCats (nsE ++ [45]) = none := by decide
+example : ((St.init.run exHist).step (.qname false (nsE ++ [45]))).2 = .err .ValueError := by decide
 
 /-- The non-override branch of `Memory.bind` as it was before the `fix:` commit: with `p → n1`,
     `q → n2`, `bind(p, n2, override=False)` left a listing that is not a bijection. -/
